@@ -255,7 +255,26 @@ func c16Flush(c *Ctx) {
 				it, _ := reg.MustPrecede(p.CallTo("produceSet.add"), IsItem(a))
 				c.Check(g1 && g2 && it.IsZero(), rule, fn, "timer-armed", a.Instr(), "timer armed after an add, under Frequency > 0 ∧ timer == nil", "the flush timer is armed outside (add succeeded ∧ Frequency > 0 ∧ no timer pending): flushes are delayed or never fire", p1)
 			}
-			// a successful add is followed by arming (when configured): from add's nil-error edge, under Frequency>0 and timer==nil the arm is reached
+			// and conversely: after a successful add, with a frequency configured and no timer pending, the timer IS
+			// armed — whatever else holds (a batch that is "ready anyway" can stop being ready when a partition is
+			// dropped from it; what remains then has no trigger at all)
+			freqOff := AnyOf{Cmp{token.LEQ, FieldLoad("Config.Producer.Flush.Frequency"), ConstInt(0)}, Cmp{token.EQL, FieldLoad("Config.Producer.Flush.Frequency"), ConstInt(0)}}
+			pending := Cmp{token.NEQ, FieldLoad("brokerProducer.timer"), IsNil()}
+			for _, ad := range reg.Find(p.CallTo("produceSet.add")) {
+				cl, isCall := ad.In.(*ssa.Call)
+				if !isCall {
+					continue
+				}
+				okEdges := reg.EstablishingEdges(Cmp{token.EQL, Same(cl), IsNil()})
+				for _, e := range okEdges {
+					r := *reg.From(Pt{e.To, 0})
+					r.Cut = func(from, to *ssa.BasicBlock) bool {
+						return Establishes(from, to, freqOff) || Establishes(from, to, pending)
+					}
+					esc, pth := r.Escape(arm)
+					c.Check(!esc, rule, fn, "timer-armed-after-every-add", cl, "after a successful add the timer is armed whenever Frequency > 0 and none is pending", "after a successful add the flush timer is not armed on every path on which Flush.Frequency > 0 and no timer is pending (an extra condition skips it): the batch can later lose the messages that made it 'ready' (a partition dropped after a retriable error) and the rest waits without any trigger — no outcome, Close hangs", pth)
+				}
+			}
 		}
 	}
 	// wherever the pending buffer is replaced by a fresh one (rollOver, or the same statements written out
